@@ -91,17 +91,22 @@ func checkC02(c *Ctx, r *Report) {
 			}
 			cm := cmp{ifi: ifi, call: call, trueSucc: ts}
 			a, b := call.Call.Args[0], call.Call.Args[1]
+			sites, _ := c.transcriptSites(m)
 			for _, pr := range [][2]ssa.Value{{a, b}, {b, a}} {
-				comp, isCall := pr[1].(*ssa.Call)
-				if !isCall || comp.Call.StaticCallee() == nil {
-					continue
+				// the computed side: the digest of one of the RAKP computations (a call of the
+				// function computing it, or the Sum of the computation written out)
+				kind := ""
+				var site *trSite
+				for k, st := range sites {
+					if st.Result != nil && st.Result == pr[1] && st.Shape == "" {
+						kind, site = k, st
+					}
 				}
-				kind, _, shape := classifyTranscript0(c, comp.Call.StaticCallee())
-				if kind == "" || shape != "" {
+				if kind == "" {
 					cm.why = "computed side is not one of the RAKP transcript computations"
 					continue
 				}
-				if comp.Call.Args[1] != m.M1 || comp.Call.Args[2] != m.M2 {
+				if !site.OverM1M2 {
 					cm.why = "computed over messages other than the RAKP1 sent / RAKP2 received"
 					continue
 				}
@@ -208,10 +213,13 @@ func checkC02(c *Ctx, r *Report) {
 
 	// key provenance of the two comparisons (shared with C01)
 	{
-		found := map[string]*ssa.Function{}
-		for _, fn := range c.transcriptFuncs() {
-			if kind, _, shape := classifyTranscript(c, fn); kind != "" && shape == "" {
-				found[kind] = fn
+		found := map[string]*trSite{}
+		if m != nil && m.M1 != nil && m.M2 != nil {
+			sites, _ := c.transcriptSites(m)
+			for k, st := range sites {
+				if st.Shape == "" {
+					found[k] = st
+				}
 			}
 		}
 		checkKeyWiring(c, r, found)
